@@ -22,6 +22,9 @@ def module(path):
         m = ir.Module(open(path).read()); _modcache[path] = m
     return m
 
+class OffPath(Exception):
+    """a sampled input vector does not follow the path under analysis (path-forked harnesses)"""
+
 class ContractViolation(lsym.PanicReached):
     """an admissible concrete input drives a summarised callee outside its contract's precondition"""
 
@@ -159,7 +162,7 @@ def candidate_vectors(run, n):
         for a in ctx.assume:
             try:
                 if not _eval_cond_env(a, env): return False
-            except KeyError: return False
+            except KeyError: continue      # path condition over internal variables: checked by the shadow run
         return True
     modes = ["max", "min"] + ["rand"] * (n // 2) + ["edge"] * (n // 2)
     for mode in modes:
@@ -210,14 +213,29 @@ def encoder_selftest(run, pr, roots, rebuild, model, timeout_s, nat=None):
         for a in ctx.assume:
             try:
                 if not _eval_cond_env(a, env): ok = False
-            except KeyError: ok = False
+            except KeyError: pass          # path condition over internal variables: checked by the shadow run
         if ok: vectors.append((tag, env))
     res = dict(ok=True, vectors=[], method="shadow execution: constraint system evaluated under concrete digit values")
     if not vectors:
         for env in candidate_vectors(run, 64)[:2]: vectors.append(("candidate", env))
-    if not vectors:
+    if not vectors and not getattr(rebuild, "path_forked", False):
         res["ok"] = False; res["why"] = "no admissible input vector found (assumptions may be unsatisfiable)"; return res
+    if getattr(rebuild, "path_forked", False):
+        vectors = vectors + [("cand%d" % i, e) for i, e in enumerate(candidate_vectors(run, 200))]
+        if model is None:
+            mv = pr.check(Cond("const", True), timeout_s=min(timeout_s, 60), split=False)
+            if mv[0] == "sat": vectors.insert(0, ("solver model", concretize(run, mv[1])))
+    on_path = 0
     for tag, env in vectors:
+        if getattr(rebuild, "path_forked", False):
+            if on_path >= 2: break
+            try:
+                rebuild(shadow=env)
+            except OffPath:
+                continue
+            except lsym.PanicReached:
+                pass
+            on_path += 1
         try:
             rc, gc, oc = rebuild(concrete=env)
         except lsym.PanicReached as e:
@@ -250,7 +268,10 @@ def encoder_selftest(run, pr, roots, rebuild, model, timeout_s, nat=None):
             elif no != outs_c: bad = "llsym concrete outputs %s != native (%s) outputs %s" % (outs_c[:4], nat[0], no[:4])
             else: nres = "native outputs agree"
         res["vectors"].append(dict(vector=tag, variables_checked=len(c2.bounds), side_conditions=len(c2.side), native=nres, result=bad or "admitted, outputs agree"))
+        res["checked"] = res.get("checked", 0) + 1
         if bad: res["ok"] = False; res["why"] = "vector %s: %s" % (tag, bad)
+    if getattr(rebuild, "path_forked", False) and not res.get("checked"):
+        res["ok"] = False; res["why"] = "no input vector following this path was found (path may be infeasible)"; res["no_witness"] = True
     return res
 
 def _eval_cond_env(c, env):
